@@ -244,7 +244,10 @@ func driveC06(c *h.Ctx) error {
 			c.IndexCase("mism_msg", len(rowsMsg)-1, cj)
 		}
 		// ---- negatives: unknown object type -> error, never a value of a wrong type
-		negatives(b, msg, root, i, gc.note, cj["message"], []uint32{0, 0x0A, 0x7F, 0x80000002, 0xffffffff})
+		// ... and every registered object type: the object structure on the wire then disagrees with the
+		// announced type (unless it is the original one) - an error, never a value of the announced type
+		// built from another type's structure
+		negatives(b, msg, root, i, gc.note, cj["message"], []uint32{0, 0x0A, 0x7F, 0x80000002, 0xffffffff, 1, 2, 3, 4, 5, 6, 7, 8, 9})
 	}
 	// ---- an Export response whose attribute list names the object's type: the type FIELD still decides
 	if replayIndex < 0 {
